@@ -15,7 +15,7 @@ def step (s : Unit) (op ans : List String) : Unit × String :=
   | ["failat", _] | ["failfrom", _] | ["failoff"] => (s, if ans = ["ok"] then "ok" else "bad answer")
   | ["end"] =>
     (s, if ans.take 3 = ["end", "live=0", "leaked=0"] then "ok"
-        else "bad memory still allocated after the objects were released and the exit handlers ran")
+        else "bad memory still allocated (live) or a registration left behind (leaked) after the objects were released and the exit handlers ran")
   | _ =>
     match ans.find? (·.startsWith "BAD=") with
     | some b => (s, "bad " ++ b)
